@@ -509,6 +509,22 @@ func init() {
 			r.h.noteStub("uninterpreted function " + name)
 			return r.newByteSlice(out, len(out))
 		},
+		"github.com/piotrnar/gocoin/lib/others/siphash.Hash": func(r *Run, fn *ssa.Function, a []Value) Value {
+			// assembly on amd64: SipHash-2-4 computed here for concrete arguments, an injective ghost otherwise
+			k0, k1 := a[0].(*Term), a[1].(*Term)
+			in := r.sliceBytes(a[2].(*SliceV))
+			if cb, ok := concreteBytes(in); ok && k0.IsConst() && k1.IsConst() {
+				return r.ts.Const(64, sipHash24(k0.k, k1.k, cb))
+			}
+			stream := append([]*Term{}, in...)
+			out := r.digest("uf:siphash:8", stream)
+			r.h.noteStub("siphash.Hash on symbolic data: uninterpreted injective function")
+			v := r.ts.Const(64, 0)
+			for i := 7; i >= 0; i-- {
+				v = r.ts.bin(OpOr, r.ts.bin(OpShl, v, r.ts.Const(64, 8)), r.ts.ZExt(out[i], 64))
+			}
+			return v
+		},
 		"crypto/sha256.Sum256": func(r *Run, fn *ssa.Function, a []Value) Value {
 			out := r.digest("sha256", r.sliceBytes(a[0].(*SliceV)))
 			return bytesToArray(out)
@@ -884,4 +900,52 @@ func (h *HarnessRun) noteAssumption(s string) {
 	h.mu.Lock()
 	h.assumptions[s] = true
 	h.mu.Unlock()
+}
+
+
+func sipHash24(k0, k1 uint64, p []byte) uint64 {
+	v0 := k0 ^ 0x736f6d6570736575
+	v1 := k1 ^ 0x646f72616e646f6d
+	v2 := k0 ^ 0x6c7967656e657261
+	v3 := k1 ^ 0x7465646279746573
+	rotl := func(x uint64, b uint) uint64 { return x<<b | x>>(64-b) }
+	round := func() {
+		v0 += v1
+		v1 = rotl(v1, 13)
+		v1 ^= v0
+		v0 = rotl(v0, 32)
+		v2 += v3
+		v3 = rotl(v3, 16)
+		v3 ^= v2
+		v0 += v3
+		v3 = rotl(v3, 21)
+		v3 ^= v0
+		v2 += v1
+		v1 = rotl(v1, 17)
+		v1 ^= v2
+		v2 = rotl(v2, 32)
+	}
+	n := len(p)
+	for len(p) >= 8 {
+		m := uint64(p[0]) | uint64(p[1])<<8 | uint64(p[2])<<16 | uint64(p[3])<<24 | uint64(p[4])<<32 | uint64(p[5])<<40 | uint64(p[6])<<48 | uint64(p[7])<<56
+		v3 ^= m
+		round()
+		round()
+		v0 ^= m
+		p = p[8:]
+	}
+	b := uint64(n) << 56
+	for i, c := range p {
+		b |= uint64(c) << (8 * uint(i))
+	}
+	v3 ^= b
+	round()
+	round()
+	v0 ^= b
+	v2 ^= 0xff
+	round()
+	round()
+	round()
+	round()
+	return v0 ^ v1 ^ v2 ^ v3
 }
